@@ -275,6 +275,7 @@ func runHarness(w *World, solver *Solver, pkgName, harness string, params map[st
 		in.unwind = 4200
 		in.trackShared = false
 		in.mapOrderSym = false
+		in.pathShared = nil
 		func() {
 			defer func() {
 				in.rollback()
